@@ -368,6 +368,53 @@ func (t *twGen) tree(depth int, kind int) map[string]interface{} {
 	return n
 }
 
+// touchHolePolygon: a square with a hole of five or six edges, one vertex of which lies in the interior of an edge of the
+// square (a valid touch in a single point, and an incidence that survives the division by 10^q because the edge is
+// axis-parallel). Which edge, where along it, which way round and from which vertex the rings start is varied.
+func (l *lgen) touchHolePolygon() geom.Polygon {
+	r := l.r
+	if l.N < 5 {
+		l.N = 5
+	}
+	n := l.N // the square is (1,1)-(n,n): no ordinate is zero (products with zero are exact and hide rounding)
+	tx := 3 + r.Intn(n-4)
+	cand := []geom.XY{{X: float64(tx + 1), Y: 3}, {X: float64(tx + 1), Y: 4}, {X: float64(tx), Y: 4}, {X: float64(tx - 1), Y: 4}, {X: float64(tx - 1), Y: 3}}
+	drop := r.Intn(len(cand) + 1) // keep at least four of the five (five or six edges)
+	hole := []geom.XY{{X: float64(tx), Y: 1}}
+	for i, p := range cand {
+		if i != drop {
+			hole = append(hole, p)
+		}
+	}
+	shell := []geom.XY{{X: 1, Y: 1}, {X: float64(n), Y: 1}, {X: float64(n), Y: float64(n)}, {X: 1, Y: float64(n)}}
+	sym := r.Intn(8)
+	ring := func(pts []geom.XY) geom.LineString {
+		out := make([]geom.XY, len(pts))
+		for i, p := range pts {
+			x, y := p.X, p.Y
+			if sym&1 != 0 {
+				x, y = y, x
+			}
+			if sym&2 != 0 {
+				x = float64(n+1) - x
+			}
+			if sym&4 != 0 {
+				y = float64(n+1) - y
+			}
+			out[i] = geom.XY{X: x, Y: y}
+		}
+		k := r.Intn(len(out))
+		out = append(out[k:], out[:k]...)
+		if r.Intn(2) == 0 {
+			for i, j := 0, len(out)-1; i < j; i, j = i+1, j-1 {
+				out[i], out[j] = out[j], out[i]
+			}
+		}
+		return geom.NewLineString(seqOf(append(out, out[0])))
+	}
+	return geom.NewPolygon([]geom.LineString{ring(shell), ring(hole)})
+}
+
 var ctNames = []string{"XY", "XYZ", "XYM", "XYZM"}
 
 func twkbGen(r *rand.Rand, n int, tier string, emit func(Case)) {
@@ -391,6 +438,9 @@ func twkbGen(r *rand.Rand, n int, tier string, emit func(Case)) {
 			g := l.any(4)
 			if r.Intn(2) == 0 {
 				g = l.leafOfType(2 + 3*r.Intn(2)) // Polygon / MultiPolygon
+			}
+			if r.Intn(4) == 0 {
+				g = l.touchHolePolygon().AsGeometry()
 			}
 			emit(Case{"kind": "grid", "w": g.AsText(), "q": 1 + r.Intn(3), "N": l.N})
 			continue
